@@ -9,12 +9,21 @@ from . import _img_common as ic
 LEVEL = "proof"
 
 
-def _case(rep, cfg, dgm, skew=True):
+def _case(rep, cfg, dgm, skew=True, form="float"):
+    """form: how the diagram is handed over - 'float' array, 'int' array or nested 'list' (the last two for integer-valued diagrams)"""
     pi = ic.make_imager(cfg)
-    got = ic.transform(pi, dgm if skew else [[b, d - b] for b, d in dgm], skew=skew)
+    raw = dgm if skew else [[b, d - b] for b, d in dgm]
+    if form == "float":
+        got = ic.transform(pi, raw, skew=skew)
+    else:
+        import warnings
+        arg = np.array(raw, dtype=int) if form == "int" else [[int(b), int(d)] for b, d in raw]
+        with warnings.catch_warnings():
+            warnings.simplefilter("ignore")
+            got = pi.transform(arg, skew=skew)
     want = ic.oracle_image(dgm, True, cfg["birth_range"], cfg["pers_range"], cfg["pixel_size"], cfg["weight"], cfg["weight_params"],
                            cfg["kernel"], cfg["kernel_params"], pi._bpnts, pi._ppnts)
-    inp = {"config": {k: v for k, v in cfg.items()}, "diagram": dgm, "skew": skew}
+    inp = {"config": {k: v for k, v in cfg.items()}, "diagram": dgm, "skew": skew, "form": form}
     if got.shape != want.shape:
         rep.violation("image shape %s but %s expected (axes are (birth, persistence))" % (got.shape, want.shape), "image:shape", {"input": inp, "observed": list(got.shape)})
         return False
@@ -46,8 +55,26 @@ def _standin(rep, tier, seed, only_search=False):
             samples.append({"config": cfg, "diagram": dgm, "skew": skew})
         if only_search and not ok:
             return
+    # integer-valued diagrams handed over as integer arrays or nested lists of ints: same image as the float array (every kernel, both
+    # weights with non-integer weight values, both coordinate conventions)
+    for it in range(30 if tier == "quick" else 600):
+        cfg = ic.rand_cfg(rng)
+        cfg["birth_range"], cfg["pers_range"], cfg["pixel_size"] = (0.0, 4.0), (0.0, 4.0), rng.choice([1.0, 0.5])
+        if cfg["weight"] == "linear_ramp":
+            cfg["weight_params"] = {"low": rng.choice([0.0, 0.3]), "high": rng.choice([1.0, 2.5]), "start": rng.choice([0.0, 0.5]), "end": rng.choice([2.5, 3.5])}
+        dgm = []
+        for _i in range(rng.randint(1, 4)):
+            b = rng.randint(0, 4)
+            dgm.append([float(b), float(b + rng.randint(0, 4))])
+        skew = rng.random() < 0.7
+        form = rng.choice(["int", "list"])
+        ok = _case(rep, cfg, dgm, skew, form=form)
+        evals += 1
+        distinct.add((cfg["kclass"], cfg["weight"], skew, form))
+        if only_search and not ok:
+            return
     if not only_search:
-        rep.bounded("pixels-vs-independent-kernel-mass", "%d random imagers (6 kernel classes incl. |r| up to 0.97, 2 weights) x diagrams of 1..4 points inside / on the border / outside" % n,
+        rep.bounded("pixels-vs-independent-kernel-mass", "%d random imagers (6 kernel classes incl. |r| up to 0.97, 2 weights) x diagrams of 1..4 points inside / on the border / outside; integer-valued diagrams as int arrays and nested lists" % n,
                     evals, len(distinct), "distinct = (kernel class, weight, skew, size); oracle: scipy norm / multivariate_normal CDFs + inclusion-exclusion, box overlap; tolerance 2e-7 * total weight",
                     samples)
 
@@ -95,7 +122,7 @@ def replay(doc):
         r = R()
         cfg = dict(inp["config"])
         cfg["birth_range"], cfg["pers_range"] = tuple(cfg["birth_range"]), tuple(cfg["pers_range"])
-        _case(r, cfg, inp["diagram"], inp.get("skew", True))
+        _case(r, cfg, inp["diagram"], inp.get("skew", True), form=inp.get("form", "float"))
         print("replay C04: %s" % (("VIOLATED: " + r.bad[0]) if r.bad else "HOLDS"))
         return 1 if r.bad else 0
     print("replay C04: %s" % doc.get("what"))
